@@ -4,7 +4,10 @@
 package main
 
 import (
+	"context"
+	"errors"
 	"fmt"
+	"io"
 	"math/rand"
 	"sort"
 	"sync/atomic"
@@ -570,7 +573,40 @@ type apiOp struct {
 	RTX  uint32 `json:"rtx,omitempty"`  // SSRCRetransmission (PayloadTypeRetransmission = PT+1)
 	FEC  uint32 `json:"fec,omitempty"`  // SSRCForwardErrorCorrection (PayloadTypeForwardErrorCorrection = PT+2)
 	ID   string `json:"id,omitempty"`
+	// next writer (write): the RTPWriter handed to BindLocalStream answers (NN, nextErr(NErr))
+	// for this packet; Next = false is the writer of the earlier rounds (0, nil)
+	Next bool `json:"next,omitempty"`
+	NN   int  `json:"nn,omitempty"`
+	NErr int  `json:"nerr,omitempty"` // 0 = nil, 1.. = index into nextErrs
+	// what the application's Write call returned (informational, replay JSON only)
+	RN   int    `json:"rn,omitempty"`
+	RErr string `json:"rerr,omitempty"`
 	Reps []apiRep `json:"reps,omitempty"`
+}
+
+// tempErr: an error type of its own with the net.Error-style methods (a congested transport).
+type tempErr struct{}
+
+func (tempErr) Error() string   { return "transport: send buffer full" }
+func (tempErr) Temporary() bool { return true }
+func (tempErr) Timeout() bool   { return false }
+
+// nextErrs: the non-nil errors a next writer answers with; NErr = index + 1.
+var nextErrs = []error{
+	io.ErrClosedPipe,
+	io.EOF,
+	errors.New("pacer: closed"), //nolint:err113
+	fmt.Errorf("write udp: %w", io.ErrShortWrite),
+	context.DeadlineExceeded,
+	tempErr{},
+}
+
+func nextErr(k int) error {
+	if k <= 0 || k > len(nextErrs) {
+		return nil
+	}
+
+	return nextErrs[k-1]
 }
 
 var mimes = []string{"", "video/VP8", "video/H264", "video/AV1", "audio/opus", "audio/PCMU", "audio/G722",
@@ -689,14 +725,22 @@ func runAPI(c *apiCase) error {
 	}
 	writers := map[uint32]interceptor.RTPWriter{}
 	infos := map[uint32]*interceptor.StreamInfo{}
+	// the next writer of every bound stream answers what the write op in flight says
+	var cur *apiOp
+	next := interceptor.RTPWriterFunc(func(*rtp.Header, []byte, interceptor.Attributes) (int, error) {
+		if cur == nil || !cur.Next {
+			return 0, nil
+		}
+
+		return cur.NN, nextErr(cur.NErr)
+	})
 	for i := range c.Ops {
 		op := &c.Ops[i]
 		switch op.K {
 		case "bind":
 			info := mkInfo(op)
 			infos[op.SSRC] = info
-			writers[op.SSRC] = ic.BindLocalStream(info, interceptor.RTPWriterFunc(
-				func(*rtp.Header, []byte, interceptor.Attributes) (int, error) { return 0, nil }))
+			writers[op.SSRC] = ic.BindLocalStream(info, next)
 		case "unbind":
 			if info, ok := infos[op.SSRC]; ok {
 				ic.UnbindLocalStream(info)
@@ -706,8 +750,15 @@ func runAPI(c *apiCase) error {
 		case "write":
 			if w, ok := writers[op.SSRC]; ok {
 				nowNs.Store(op.Now)
-				if _, err := w.Write(mkHeader(op.SSRC, op.Seq, op.TS, op.Pad, op.Marker, op.CSRC, op.Ext),
-					payloadBuf[:op.Len], nil); err != nil {
+				cur = op
+				n, err := w.Write(mkHeader(op.SSRC, op.Seq, op.TS, op.Pad, op.Marker, op.CSRC, op.Ext),
+					payloadBuf[:op.Len], nil)
+				cur = nil
+				op.RN, op.RErr = n, ""
+				if err != nil {
+					op.RErr = err.Error()
+				}
+				if !op.Next && err != nil { // the harness' own writer never fails unless told to
 					return err
 				}
 			}
@@ -755,7 +806,12 @@ func (c *apiCase) toCase(buckets ...string) cq.Case {
 		case "unbind":
 			ops[i] = cq.C("CAUnbind", cq.ZU(uint64(op.SSRC)))
 		case "write":
-			ops[i] = cq.C("CAWrite", cq.ZU(uint64(op.SSRC)), cq.Z(op.Now), cq.ZU(uint64(op.Seq)), cq.ZU(uint64(op.TS)), cq.Z(int64(op.Len)))
+			if op.Next {
+				ops[i] = cq.C("CAWriteR", cq.ZU(uint64(op.SSRC)), cq.Z(op.Now), cq.ZU(uint64(op.Seq)), cq.ZU(uint64(op.TS)), cq.Z(int64(op.Len)),
+					cq.Z(int64(op.NN)), cq.Z(int64(op.NErr)))
+			} else {
+				ops[i] = cq.C("CAWrite", cq.ZU(uint64(op.SSRC)), cq.Z(op.Now), cq.ZU(uint64(op.Seq)), cq.ZU(uint64(op.TS)), cq.Z(int64(op.Len)))
+			}
 		default:
 			reps := make([]string, len(op.Reps))
 			for k, rp := range op.Reps {
@@ -962,6 +1018,284 @@ func genAPIRates(r *rand.Rand) (*apiCase, []string) {
 	return c, dedup(b)
 }
 
+// ---- round 5: the next writer of the chain ----
+
+// pickNN: the byte count a next writer answers with: header + payload (what a transport
+// reports), payload only, 0, 1, -1, anything.
+func pickNN(r *rand.Rand, ln int) int {
+	switch r.Intn(8) {
+	case 0:
+		return 0
+	case 1:
+		return ln
+	case 2:
+		return 1
+	case 3:
+		return -1
+	case 4:
+		return r.Intn(3000)
+	default:
+		return 12 + ln
+	}
+}
+
+// failWrite makes the next writer refuse the packet of op: a non-nil error of some kind,
+// n = 0 mostly, sometimes a partial / full byte count next to the error.
+func failWrite(r *rand.Rand, op *apiOp) {
+	op.Next = true
+	op.NErr = 1 + r.Intn(len(nextErrs))
+	op.NN = 0
+	if r.Intn(4) == 0 {
+		op.NN = pickNN(r, op.Len)
+	}
+}
+
+func okWrite(r *rand.Rand, op *apiOp) {
+	op.Next = true
+	op.NErr = 0
+	op.NN = pickNN(r, op.Len)
+}
+
+// nextBuckets names what the programmed next writer did in a case.
+func nextBuckets(c *apiCase, b []string) []string {
+	nw, nf, nz := 0, 0, 0
+	firstOf := map[uint32]bool{} // ssrc -> a write since the latest bind was seen
+	ref := map[uint32]uint32{}   // ssrc -> timestamp of the previous write
+	for i := range c.Ops {
+		op := &c.Ops[i]
+		switch op.K {
+		case "bind":
+			delete(firstOf, op.SSRC)
+		case "write":
+			nw++
+			if op.Next && op.NErr != 0 {
+				nf++
+				b = append(b, fmt.Sprintf("next-err-kind-%d", op.NErr))
+				if !firstOf[op.SSRC] {
+					b = append(b, "next-fails-first-packet")
+				} else if ref[op.SSRC] != op.TS {
+					b = append(b, "next-fails-new-frame")
+				}
+				if op.NN != 0 {
+					b = append(b, "next-fails-with-byte-count")
+				}
+				for k := i + 1; k < len(c.Ops); k++ {
+					if c.Ops[k].K == "write" && c.Ops[k].SSRC == op.SSRC {
+						break
+					}
+					if c.Ops[k].K == "tick" {
+						b = append(b, "next-fails-last-before-tick")
+
+						break
+					}
+				}
+			} else if op.Next && op.NN == 0 {
+				nz++
+			}
+			firstOf[op.SSRC] = true
+			ref[op.SSRC] = op.TS
+		}
+	}
+	switch {
+	case nf == 0:
+	case nf == nw:
+		b = append(b, "next-fails-all")
+	default:
+		b = append(b, "next-fails-some")
+	}
+	if nz > 0 {
+		b = append(b, "next-ok-zero-bytes")
+	}
+
+	return b
+}
+
+// decorateNext gives the writes of a general api case a next writer that answers per
+// packet: 1/3 of the cases keep the always-succeeding (0, nil) writer of the earlier rounds;
+// the others draw byte counts and failures (a few / most / all packets, the first packet
+// after every bind).
+func decorateNext(r *rand.Rand, c *apiCase, b []string) []string {
+	mode := r.Intn(9)
+	if mode < 3 {
+		return b
+	}
+	b = append(b, "next-writer-programmed")
+	first := map[uint32]bool{}
+	for i := range c.Ops {
+		op := &c.Ops[i]
+		switch op.K {
+		case "bind":
+			first[op.SSRC] = true
+		case "write":
+			fail := false
+			switch mode {
+			case 3: // byte-count variety only
+			case 4, 5:
+				fail = r.Intn(4) == 0
+			case 6:
+				fail = r.Intn(4) != 0
+			case 7:
+				fail = true
+			case 8:
+				fail = first[op.SSRC] || r.Intn(8) == 0
+			}
+			first[op.SSRC] = false
+			if fail {
+				failWrite(r, op)
+			} else {
+				okWrite(r, op)
+			}
+		}
+	}
+
+	return dedup(nextBuckets(c, b))
+}
+
+// genAPINextFail: "packets written on that stream" when the next writer refuses some of them.
+// 2..4 local streams on ONE interceptor, same clock rate, fed the SAME packets at the same
+// instants (frames of 1..3 packets, sometimes an older packet, sequence numbers crossing the
+// wrap); the next writer of stream 0 accepts everything, the next writers of the others refuse
+// packets by a pattern - all / the first after the bind / every first packet of a new frame
+// (the packets that move the timestamp reference) / the last packet before each tick / every
+// other packet / random / only the out-of-order ones. Ticks right at the last write, 1 s
+// later, etc. Whatever the accounting does with the next writer's answer (count only accepted
+// packets, take the reference only from accepted packets, count the bytes the next writer
+// reported) shows as a difference between the report and the recount of the WRITES.
+func genAPINextFail(r *rand.Rand) (*apiCase, []string) {
+	c := &apiCase{UL: r.Intn(3) == 0}
+	b := []string{"next-family", "next-writer-programmed"}
+	ssrcs := []uint32{1, 2, 7, 0xFFFFFFFF, 0x80000000, 0}
+	r.Shuffle(len(ssrcs), func(i, j int) { ssrcs[i], ssrcs[j] = ssrcs[j], ssrcs[i] })
+	ns := 2 + r.Intn(3)
+	rate := pickRate(r)
+	if r.Intn(2) == 0 {
+		rate = rates[r.Intn(3)]
+	}
+	b = append(b, rateBucket(rate))
+	pats := make([]int, ns) // 0 = accepts everything
+	for k := 1; k < ns; k++ {
+		pats[k] = 1 + r.Intn(7)
+	}
+	patName := []string{"", "all", "first", "new-frame", "before-tick", "alternate", "random", "reordered"}
+	for k := 1; k < ns; k++ {
+		b = append(b, "next-pattern-"+patName[pats[k]])
+	}
+	bind := func(k int) {
+		bop := apiOp{K: "bind", SSRC: ssrcs[k], Rate: rate}
+		infoVariety(r, &bop)
+		c.Ops = append(c.Ops, bop)
+	}
+	for k := 0; k < ns; k++ {
+		bind(k)
+	}
+	now := recent + r.Int63n(1000000)*ms
+	seq, _ := pickSeq(r)
+	if r.Intn(2) == 0 {
+		seq = uint16(65536 - 1 - r.Intn(4)) // the wrap falls inside the history
+		b = append(b, "seq-near-wrap")
+	}
+	ts, _ := pickTS(r)
+	step := tsStepFor(r, rate, 50)
+	nwr := make([]int, ns) // writes since the latest bind, per stream
+	lastFrameTS := make([]uint32, ns)
+	emit := func(sq uint16, t uint32, old, newFrame bool) {
+		ln := pickLen(r)
+		for k := 0; k < ns; k++ {
+			op := apiOp{K: "write", SSRC: ssrcs[k], Now: now, Seq: sq, TS: t, Len: ln}
+			fail := false
+			switch pats[k] {
+			case 1:
+				fail = true
+			case 2:
+				fail = nwr[k] == 0
+			case 3:
+				fail = newFrame && !old
+			case 5:
+				fail = nwr[k]%2 == 1
+			case 6:
+				fail = r.Intn(3) == 0
+			case 7:
+				fail = old
+			}
+			if fail {
+				failWrite(r, &op)
+			} else {
+				okWrite(r, &op)
+			}
+			nwr[k]++
+			lastFrameTS[k] = t
+			c.Ops = append(c.Ops, op)
+		}
+	}
+	send := func(frames int) {
+		for f := 0; f < frames; f++ {
+			np := 1 + r.Intn(3)
+			for p := 0; p < np; p++ {
+				if r.Intn(7) == 0 && nwr[0] > 0 { // an older packet in between
+					d := uint16(1 + r.Intn(4))
+					emit(seq-d, ts-uint32(d)*step, true, false)
+					b = append(b, "reordered")
+				}
+				emit(seq, ts, false, p == 0)
+				seq++
+				if r.Intn(2) == 0 {
+					now += int64(r.Intn(5)) * ms
+				}
+			}
+			ts += step
+			now += int64(r.Intn(40)) * ms
+		}
+	}
+	tick := func() {
+		// pattern "before-tick": the last write of the stream before this tick is refused
+		for k := 1; k < ns; k++ {
+			if pats[k] != 4 {
+				continue
+			}
+			for i := len(c.Ops) - 1; i >= 0; i-- {
+				if c.Ops[i].K == "tick" {
+					break
+				}
+				if c.Ops[i].K == "write" && c.Ops[i].SSRC == ssrcs[k] {
+					failWrite(r, &c.Ops[i])
+
+					break
+				}
+			}
+		}
+		switch r.Intn(6) {
+		case 0:
+			b = append(b, "tick-at-last-send-instant")
+		case 1:
+			now += sec
+		case 2:
+			now += int64(1+r.Intn(120)) * 60 * sec
+			b = append(b, "tick-minutes-after")
+		default:
+			now += int64(1+r.Intn(5000)) * ms
+		}
+		c.Ops = append(c.Ops, apiOp{K: "tick", Now: now})
+	}
+	send(1 + r.Intn(4))
+	tick()
+	for i := r.Intn(3); i > 0; i-- {
+		if r.Intn(4) == 0 { // rebind one of the streams: its counts restart, failures or not
+			k := r.Intn(ns)
+			bind(k)
+			nwr[k] = 0
+			b = append(b, "rebind")
+		}
+		send(1 + r.Intn(3))
+		tick()
+	}
+	b = append(b, fmt.Sprintf("streams-%d", ns))
+	if c.UL {
+		b = append(b, "use-latest")
+	}
+
+	return c, dedup(nextBuckets(c, b))
+}
+
 func main() {
 	o := cq.ParseFlags()
 	r := o.Rand()
@@ -1027,10 +1361,15 @@ func main() {
 	for i := 0; i < napi; i++ {
 		var c *apiCase
 		var b []string
-		if i%4 == 3 {
+		switch {
+		case i%4 == 3:
 			c, b = genAPIRates(r)
-		} else {
+			b = decorateNext(r, c, b)
+		case i%4 == 1:
+			c, b = genAPINextFail(r)
+		default:
 			c, b = genAPI(r)
+			b = decorateNext(r, c, b)
 		}
 		b = decorateAPI(r, c, b)
 		if err := runAPI(c); err != nil {
@@ -1043,6 +1382,7 @@ func main() {
 	cq.Write(o, "core: one sender stream, 3..170 sends (frames of 1..4 packets, reordering, duplicates, sequence jumps, "+
 		"timestamp wrap/zero, clock steps) with reports anywhere, non-trivial = a report after at least one packet; "+
 		"api: SenderInterceptor with 1..4 SSRCs (StreamInfo variety, clock rates incl. 0 and corners; every 4th case: streams of different rates fed the same packets), "+
-		"bind/unbind/rebind, injected clock and ticker, non-trivial = a report with packet count > 0",
+		"bind/unbind/rebind, injected clock and ticker, next writer answering (n, err) per packet (2/3 of the general cases; every 4th case: streams fed the same packets whose next writers refuse them by pattern), "+
+			"non-trivial = a report with packet count > 0",
 		[]*cq.Set{core, api}, nil, fails)
 }
